@@ -646,7 +646,7 @@ class DBusObjectHandler :
         """
         self.conn = connection
         self.exports = {}  # map object paths => obj
-        self._weakProxies = weakref.WeakValueDictionary()
+        self._weakProxies = []  # weak references, in order of creation
 
     def connectionLost(self, reason):
         """
@@ -656,10 +656,18 @@ class DBusObjectHandler :
         @param reason: The value passed to the associated connection's
                        connectionLost method.
         """
-        for wref in self._weakProxies.valuerefs():
+        for wref in list(self._weakProxies):
             p = wref()
             if p is not None:
                 p.connectionLost(reason)
+
+    def _registerProxy(self, prox):
+        """
+        Remembers a L{RemoteDBusObject} (weakly) so that it can be told about
+        the loss of the connection
+        """
+        self._weakProxies = [w for w in self._weakProxies if w() is not None]
+        self._weakProxies.append(weakref.ref(prox))
 
     def exportObject(self, dbusObject):
         """
@@ -932,8 +940,6 @@ class DBusObjectHandler :
         @returns: A Deferred to the L{RemoteDBusObject} instance
         """
 
-        weak_id = (busName, objectPath, interfaces)
-
         need_introspection = False
         required_interfaces = set()
 
@@ -956,9 +962,11 @@ class DBusObjectHandler :
                         need_introspection = True
 
             if not need_introspection:
-                return defer.succeed(
-                    RemoteDBusObject(self, busName, objectPath, ifl)
-                )
+                prox = RemoteDBusObject(self, busName, objectPath, ifl)
+
+                self._registerProxy(prox)
+
+                return defer.succeed(prox)
 
         d = self.conn.introspectRemoteObject(
             busName,
@@ -977,7 +985,7 @@ class DBusObjectHandler :
 
             prox = RemoteDBusObject(self, busName, objectPath, ifaces)
 
-            self._weakProxies[weak_id] = prox
+            self._registerProxy(prox)
 
             return prox
 
